@@ -192,9 +192,14 @@ pub trait ProgIt: Sized {
     fn rest_each(self, f: &mut dyn FnMut(&mut Self::T)) -> Vec<Self::T>;
     fn rest_count(self) -> usize;
     fn rest_last(self) -> Option<Self::T>;
+    fn rest_min(self) -> Option<Self::T>;
+    fn rest_max(self) -> Option<Self::T>;
 }
 pub struct Fwd<I>(pub I);
-impl<I: Iterator> ProgIt for Fwd<I> {
+impl<I: Iterator> ProgIt for Fwd<I>
+where
+    I::Item: Ord,
+{
     type T = I::Item;
     fn nx(&mut self) -> Option<I::Item> {
         self.0.next()
@@ -228,9 +233,18 @@ impl<I: Iterator> ProgIt for Fwd<I> {
     fn rest_last(self) -> Option<I::Item> {
         self.0.last()
     }
+    fn rest_min(self) -> Option<I::Item> {
+        self.0.min()
+    }
+    fn rest_max(self) -> Option<I::Item> {
+        self.0.max()
+    }
 }
 pub struct Dbl<I>(pub I);
-impl<I: DoubleEndedIterator + ExactSizeIterator> ProgIt for Dbl<I> {
+impl<I: DoubleEndedIterator + ExactSizeIterator> ProgIt for Dbl<I>
+where
+    I::Item: Ord,
+{
     type T = I::Item;
     fn nx(&mut self) -> Option<I::Item> {
         self.0.next()
@@ -263,6 +277,12 @@ impl<I: DoubleEndedIterator + ExactSizeIterator> ProgIt for Dbl<I> {
     }
     fn rest_last(self) -> Option<I::Item> {
         self.0.last()
+    }
+    fn rest_min(self) -> Option<I::Item> {
+        self.0.min()
+    }
+    fn rest_max(self) -> Option<I::Item> {
+        self.0.max()
     }
 }
 
@@ -388,6 +408,35 @@ pub fn run_prog<P: ProgIt>(mut it: P, prog: &[ItOp], total: usize, reference: Op
                 if c != rem {
                     out.problems.push((if c > rem { "too_many" } else { "early_none" }, format!("op {}: count() = {} but {} elements remained", i, c, rem)));
                 }
+                out.consumed += rem;
+                return (out, None);
+            }
+            ItOp::RestMin | ItOp::RestMax => {
+                let is_min = *op == ItOp::RestMin;
+                let r = if is_min { it.rest_min() } else { it.rest_max() };
+                // pairs compare by item first; items are distinct, so the answer is the remaining
+                // element with the smallest / greatest item id
+                let want: Option<u32> = reference.and_then(|rf| {
+                    let rest = &rf[front.min(rf.len())..back.min(rf.len()).max(front.min(rf.len()))];
+                    if is_min {
+                        rest.iter().min().copied()
+                    } else {
+                        rest.iter().max().copied()
+                    }
+                });
+                match (&r, rem) {
+                    (None, 0) => {}
+                    (None, _) => out.problems.push(("early_none", format!("op {}: {:?} returned None with {} elements remaining", i, op, rem))),
+                    (Some(_), 0) => out.problems.push(("yield_after_none", format!("op {}: {:?} yielded an element of an exhausted iterator", i, op))),
+                    (Some(x), _) => {
+                        if reference.is_some() && want != Some(id_of(x)) {
+                            out.problems.push(("wrong_min_max", format!("op {}: {:?} returned item {} but the extreme of the remaining pairs (compared item first, as Iterator::{} does) is item {:?}", i, op, id_of(x), if is_min { "min" } else { "max" }, want)));
+                        }
+                    }
+                }
+                // (the element returned is not recorded as a positional yield: it can be any of
+                // the remaining ones)
+                drop(r);
                 out.consumed += rem;
                 return (out, None);
             }
@@ -768,6 +817,7 @@ pub fn exec(q: &mut AnyQ, m: &mut Model, st: &Step, cx: &mut Ctx) {
             expect!(cx, C17, "reserve_capacity", q.capacity() >= q.len() + n, "after reserve({}) capacity()={} < len()+n={}", n, q.capacity(), q.len() + n);
         }
         Step::TryReserve { n, exact, fault } => {
+            let cap_before = q.capacity();
             crate::alloc::begin(fault.map(|f| f.0), fault.map_or(false, |f| f.1));
             let r = if *exact { q.try_reserve_exact(*n) } else { q.try_reserve(*n) };
             let (seen, failed) = crate::alloc::end();
@@ -789,6 +839,7 @@ pub fn exec(q: &mut AnyQ, m: &mut Model, st: &Step, cx: &mut Ctx) {
                 }
                 Err(_) => {
                     cx.probe("try_reserve_err");
+                    expect!(cx, C17, "try_reserve_err_shrank", q.capacity() >= cap_before, "a failed try_reserve({}) must leave the queue unchanged, but capacity() went from {} to {}", n, cap_before, q.capacity());
                     if failed == 0 && n.saturating_mul(8) <= crate::alloc::CEILING / 64 {
                         cx.probe("try_reserve_err_without_injected_fault");
                     }
